@@ -35,7 +35,7 @@ var ext4Names = []string{"a.txt", "B.BIN", "file with space", "x", "long-file-na
 var ext4Dirs = []string{"d1", "d1/sub", "Dir Two"}
 
 func genExt4Cfg(r *core.Rng, tier string, t *core.Trace, wide bool) {
-	switch r.PickW(45, 35, 15, 5) {
+	switch r.PickW(35, 30, 30, 5) {
 	case 0:
 		t.Cfg["size"] = r.Range(9, 24) << 20
 	case 1:
